@@ -159,7 +159,15 @@ fn single(seed: u64, idx: u64) -> Tally {
 }
 
 fn main() {
-    let args: Vec<String> = std::env::args().collect();
+    let mut args: Vec<String> = std::env::args().collect();
+    if args.len() == 1 {
+        // a child run: its arguments come through the environment and its own command line stays bare,
+        // so that library code which (wrongly) falls back to parsing the process's arguments finds
+        // nothing there instead of exiting the process
+        if let Ok(v) = std::env::var("VT_ARGS") {
+            args.extend(v.split('\u{1f}').map(str::to_owned));
+        }
+    }
     let get = |k: &str, d: &str| args.iter().position(|a| a == k).and_then(|i| args.get(i + 1)).cloned().unwrap_or_else(|| d.to_owned());
     let seed: u64 = get("--seed", "1").parse().unwrap();
     let out = get("--out", "/dev/stdout");
@@ -179,7 +187,7 @@ fn main() {
     let mut failures = Vec::new();
     for idx in start..start + count {
         let tmp = format!("{out}.case{idx}");
-        let st = Command::new(&exe).args(["vt", "--single", &idx.to_string(), "--seed", &seed.to_string(), "--out", &tmp]).output();
+        let st = Command::new(&exe).env("VT_ARGS", ["vt", "--single", &idx.to_string(), "--seed", &seed.to_string(), "--out", &tmp].join("\u{1f}")).output();
         let ok = st.as_ref().is_ok_and(|s| s.status.success());
         let v: Option<Value> = std::fs::read_to_string(&tmp).ok().and_then(|s| serde_json::from_str(&s).ok());
         let _ = std::fs::remove_file(&tmp);
